@@ -1,7 +1,7 @@
 import TypstyleModel.Model.Printer.Code
 /-! `markup.rs`, `text.rs`. -/
 namespace Typstyle
-open Pretty
+open Twin
 
 /-- `Boundary` (markup.rs:251). -/
 inductive Bound | nil | nilOrBreak | spaceOrBreak | brk | weakSpaceOrBreak | weakBreak deriving DecidableEq, Repr
@@ -85,7 +85,7 @@ def markupNodeStep (e : Env) (r : Rec) (ctx : Ctx) (mixed : Bool) (doc : Doc) (n
     if node.kind == .space then pure space
     else if node.kind == .text then pure (e.tok node.intoText)
     else if isExpr node then r.expr (if mixed then ctx.suppress else ctx) node
-    else if isCommentKind node.kind then convComment e node
+    else if isCommentKind node.kind then convCommentT e node
     else pure (e.tok node.text)       -- Hash, Semicolon, Shebang
   pure (doc ++ d)
 
@@ -155,6 +155,6 @@ def listItemProducer (e : Env) (r : Rec) (_ : Unit) (c : Ctx) (child : ANode) : 
 /-- `convert_list_item_like`. -/
 def convListItemLike (e : Env) (r : Rec) (ctx : Ctx) (n : ANode) : M Doc := do
   let d ← flowM e ctx n.children () (listItemProducer e r)
-  pure (d.nst e.cfg.tab)
+  pure (d.nstTab)
 
 end Typstyle
